@@ -239,6 +239,8 @@ pub struct Scenario {
     pub split_budget: usize,
     pub split_menu: SplitMenu,
     pub cancel_budget: usize,
+    /// how many times a request and readable bytes may hit the idle select in the same poll
+    pub race_budget: usize,
     pub faults: Vec<FaultKind>,
     pub fault_budget: usize,
     pub tick_anywhere: bool,
@@ -265,6 +267,7 @@ impl Scenario {
             split_budget: 0,
             split_menu: SplitMenu::Lines,
             cancel_budget: 0,
+            race_budget: 1,
             faults: vec![],
             fault_budget: 0,
             tick_anywhere: false,
@@ -287,6 +290,7 @@ impl Scenario {
             "split_budget": self.split_budget,
             "split_menu": format!("{:?}", self.split_menu),
             "cancel_budget": self.cancel_budget,
+            "race_budget": self.race_budget,
             "faults": self.faults.iter().map(|f| format!("{f:?}")).collect::<Vec<_>>(),
             "fault_budget": self.fault_budget,
             "tick_anywhere": self.tick_anywhere,
@@ -309,6 +313,10 @@ pub enum Ev {
     HalfTick,
     Cancel(usize, usize),
     Notify(String),
+    /// both branches of the idle `select!` become ready in the same poll: caller `caller` issues
+    /// its next request and `k` more bytes (0 = all) become readable with no quiescence in
+    /// between; `recv_first` = the select polls the connection before the request queue
+    Race { caller: usize, k: usize, recv_first: bool },
     Close(usize),
     CloseRst(usize),
     ReadErr,
@@ -328,6 +336,11 @@ impl Ev {
             Ev::HalfTick => "HalfTick".into(),
             Ev::Cancel(i, j) => format!("Cancel({i},{j})"),
             Ev::Notify(n) => format!("Notify({n})"),
+            Ev::Race { caller, k, recv_first } => format!(
+                "Race(Issue({caller}),{},{})",
+                if *k == 0 { "DeliverAll".to_string() } else { format!("Deliver({k})") },
+                if *recv_first { "connection-polled-first" } else { "queue-polled-first" }
+            ),
             Ev::Close(p) => format!("Close({p})"),
             Ev::CloseRst(p) => format!("CloseRst({p})"),
             Ev::ReadErr => "ReadErr".into(),
@@ -557,8 +570,11 @@ impl Chooser for PrefixChooser<'_> {
             let h = hash64(enabled);
             if h != eh || oh != obs_hash {
                 return Err(format!(
-                    "nondeterminism: replaying step {step} the enabled set / observations differ from the recorded ones (enabled {:?})",
-                    enabled.iter().map(|e| e.name()).collect::<Vec<_>>()
+                    "nondeterminism: replaying step {step} the enabled set / observations differ from the recorded ones (enabled-set-differs={}, observations-differ={}, enabled {:?}, prefix choice indices {:?})",
+                    h != eh,
+                    oh != obs_hash,
+                    enabled.iter().map(|e| e.name()).collect::<Vec<_>>(),
+                    self.prefix.iter().map(|p| p.0).collect::<Vec<_>>()
                 ));
             }
             if c >= enabled.len() {
@@ -568,6 +584,17 @@ impl Chooser for PrefixChooser<'_> {
         } else {
             Ok(0)
         }
+    }
+}
+
+/// Replays a list of choice indices (debugging aid); after the list, defaults.
+pub struct IndexChooser {
+    pub idx: Vec<usize>,
+}
+
+impl Chooser for IndexChooser {
+    fn choose(&mut self, step: usize, enabled: &[Ev], _obs_hash: u64) -> Result<usize, String> {
+        Ok(self.idx.get(step).copied().unwrap_or(0).min(enabled.len() - 1))
     }
 }
 
@@ -607,6 +634,7 @@ struct World {
     splits_used: usize,
     notifies_used: usize,
     cancels_used: usize,
+    races_used: usize,
     faults_used: usize,
     loose_ticks_used: usize,
     fault: Option<(Ev, usize)>,
@@ -904,6 +932,23 @@ impl World {
                 alts.push(Ev::HalfTick);
             }
         }
+        // (not after a fault: EOF / garbage / errors stay readable, so the select after the raced
+        // one would have both branches ready again and its order is not pinned)
+        if self.races_used < self.scn.race_budget && self.fault.is_none() && undelivered > 0 && self.connected() && !self.handles_dropped && self.last_client_line().as_deref() == Some(&b"idle"[..]) {
+            let mut ks = vec![0usize];
+            if self.splits_used < self.scn.split_budget {
+                ks.extend(self.split_points());
+            }
+            for (i, c) in self.callers.iter().enumerate() {
+                if c.next < c.prog.ops.len() && (c.prog.pipeline || c.pending.is_empty()) {
+                    for &k in &ks {
+                        for recv_first in [true, false] {
+                            alts.push(Ev::Race { caller: i, k, recv_first });
+                        }
+                    }
+                }
+            }
+        }
         if self.cancels_used < self.scn.cancel_budget {
             for (i, c) in self.callers.iter().enumerate() {
                 for p in &c.pending {
@@ -1033,6 +1078,33 @@ impl World {
                     self.ops[*i][*op_idx].cancelled = true;
                 }
             }
+            Ev::Race { caller, k, .. } => {
+                self.races_used += 1;
+                // queue the request (first poll of the caller future performs the channel send) …
+                let i = *caller;
+                let op_idx = self.callers[i].next;
+                self.callers[i].next += 1;
+                let op = self.callers[i].prog.ops[op_idx].clone();
+                let fut = make_op_future(self.client.as_ref().unwrap(), &op);
+                let flag = Arc::new(Flag(AtomicBool::new(true)));
+                self.ops[i][op_idx].issued_step = Some(self.step);
+                self.ops[i][op_idx].issue_seq = Some(self.issue_seq);
+                self.ops[i][op_idx].issued_after_fault = self.fault.is_some();
+                self.issue_seq += 1;
+                self.callers[i].pending.push(PendingOp { op_idx, fut, flag });
+                self.poll_callers();
+                // … and make the bytes readable before the loop task gets to run
+                let mut s = self.sh();
+                if *k == 0 {
+                    s.delivered = s.visible_len();
+                } else {
+                    drop(s);
+                    self.splits_used += 1;
+                    s = self.sh();
+                    s.delivered = (s.delivered + k).min(s.visible_len());
+                }
+                s.wake_reader();
+            }
             Ev::Notify(name) => {
                 self.notifies_used += 1;
                 let mut guard = self.sh();
@@ -1098,7 +1170,26 @@ pub fn noop_waker() -> Waker {
 }
 
 /// Execute one schedule of `scn` on the real client.
+pub const RACE_RETRY: &str = "RACE_RETRY";
+pub static RACE_RETRIES: AtomicU64 = AtomicU64::new(0);
+
+/// Execute one schedule of `scn` on the real client. `tokio::select!` picks its first branch with
+/// a runtime-internal random number; a `Race` event fixes the order the explorer wants, so an
+/// execution in which the runtime chose the other order is discarded and repeated (the accepted
+/// execution is fully determined by the choice list).
 pub fn run_once(scn: &Scenario, chooser: &mut dyn Chooser) -> Result<Trace, String> {
+    for _ in 0..5000 {
+        match run_attempt(scn, chooser) {
+            Err(e) if e == RACE_RETRY => {
+                RACE_RETRIES.fetch_add(1, Ordering::Relaxed);
+            }
+            other => return other,
+        }
+    }
+    Err("a Race event never saw the requested select! branch order in 5000 attempts".to_string())
+}
+
+fn run_attempt(scn: &Scenario, chooser: &mut dyn Chooser) -> Result<Trace, String> {
     let rt = tokio::runtime::Builder::new_current_thread()
         .enable_time()
         .start_paused(true)
@@ -1177,6 +1268,7 @@ async fn run_async(scn: &Scenario, chooser: &mut dyn Chooser) -> Result<Trace, S
         splits_used: 0,
         notifies_used: 0,
         cancels_used: 0,
+        races_used: 0,
         faults_used: 0,
         loose_ticks_used: 0,
         fault: None,
@@ -1209,8 +1301,24 @@ async fn run_async(scn: &Scenario, chooser: &mut dyn Chooser) -> Result<Trace, S
         }
         let strict = w.strict_tick();
         w.log(Obs::Ev { step: w.step, name: ev.name(), strict_tick: strict });
+        let log_before = w.sh().log.len();
         w.apply(&ev).await;
         w.settle().await;
+        if let Ev::Race { recv_first, .. } = &ev {
+            // which select branch was polled first? the connection branch reads, the queue branch
+            // goes on to write `noidle`; whichever shows up first in the log tells
+            let actual = w.sh().log[log_before..].iter().find_map(|o| match o {
+                Obs::Read(_) | Obs::ReadEof | Obs::ReadErr => Some(true),
+                Obs::Write(_) | Obs::WriteErr => Some(false),
+                _ => None,
+            });
+            match actual {
+                Some(a) if a != *recv_first => return Err(RACE_RETRY.to_string()),
+                Some(_) => {}
+                // the loop is not in its idle select any more (it ended after a fault): nothing raced
+                None => {}
+            }
+        }
         visible_states.push(w.visible_state_hash());
         w.step += 1;
     }
